@@ -10,7 +10,7 @@
 
 use core::fmt;
 
-use crate::{parser::Token, Duration, Epoch, TimeScale};
+use crate::{parser::Token, Duration, Epoch, TimeScale, NANOSECONDS_PER_DAY};
 
 use super::format::Format;
 
@@ -108,6 +108,12 @@ impl Formatter {
     pub fn set_timezone(&mut self, offset: Duration) {
         self.offset = offset;
     }
+}
+
+/// One-based day of the year (1 January is day 1), from the integer nanosecond count so that
+/// the last nanoseconds of a day are not rounded up into the next day.
+fn day_of_year_integer(epoch: &Epoch) -> i128 {
+    epoch.duration_in_year().total_nanoseconds() / i128::from(NANOSECONDS_PER_DAY) + 1
 }
 
 impl fmt::Display for Formatter {
@@ -209,7 +215,7 @@ impl fmt::Display for Formatter {
                     }
                     Token::DayOfYearInteger => {
                         write_sep(f, i, &self.format)?;
-                        write!(f, "{:03}", self.epoch.day_of_year().floor() as u16)?
+                        write!(f, "{:03}", day_of_year_integer(&self.epoch))?
                     }
                     Token::DayOfYear => {
                         write_sep(f, i, &self.format)?;
@@ -280,7 +286,7 @@ impl fmt::Display for Formatter {
                     }
                     Token::DayOfYearInteger => {
                         write_sep(f, i, &self.format)?;
-                        write!(f, "{:03}", self.epoch.day_of_year().floor() as u16)?
+                        write!(f, "{:03}", day_of_year_integer(&self.epoch))?
                     }
                     Token::DayOfYear => {
                         write_sep(f, i, &self.format)?;
